@@ -51,6 +51,7 @@ class Model:
         w.emitted = {}        # (slot, ns) -> count of emits for current sid
         w.out = {}            # (slot, ns) -> {id: callback number}
         w.used = {}           # (slot, ns) -> set of ids already acknowledged
+        w.acked = {}          # same, but only by the live connection
         w.ncb = 0
         w.refused = 0
         w.fired = {}          # callback number -> list of arg tuples
@@ -107,6 +108,7 @@ class Model:
         w.emitted.pop((s, ns), None)
         w.out.pop((s, ns), None)
         w.used.pop((s, ns), None)
+        w.acked.pop((s, ns), None)
 
     def _callback(self, w, k):
         if self.coro_cb and self.is_async:
@@ -117,8 +119,32 @@ class Model:
                 w.fired.setdefault(k, []).append(args)
         return cb
 
+    NOOP_KEY = 'C06/ack-side-effect'
+
+    def future(self, w):
+        """The next emit-with-callback to every live connection and what
+        its acknowledgement does (destructive; throw-away world)."""
+        obs = []
+        fired = []
+        for (s, ns), sid in sorted(w.conn.items()):
+            w.drain_all()
+            r = w.api('emit', 'fq', 1, to=sid, namespace=ns,
+                      callback=lambda *a, k=(s, ns): fired.append((k, a)))
+            frames = [f for f in w.drain(w.slot[s]) if f[0] == 'pkt']
+            ids = [f[3] for f in frames]
+            obs.append((s, ns, r[0], tuple(ids),
+                        tuple(i in w.out.get((s, ns), {}) for i in ids),
+                        tuple(i in w.acked.get((s, ns), ()) for i in ids)))
+            for i in ids:
+                if isinstance(i, int):
+                    w.recv_packet(w.slot[s], 3, ns, i, ['fz'])
+        obs.append(tuple(fired))
+        w.task_errors.clear()
+        return tuple(obs)
+
     def apply(self, w, op):
         kind = op[0]
+        w.expect_noop = False
         if kind == 'connect':
             _, s, ns = op
             w.recv_packet(w.slot[s], 0, ns)
@@ -203,9 +229,21 @@ class Model:
             if w.task_errors:
                 self._bad(w, 'ack-exception', f'{what}: {w.task_errors!r}')
                 w.task_errors.clear()
-            if id in out:
+            if id in w.acked.get((s, ns), ()):
+                # a repeated ACK of this connection: ignored, whatever the
+                # id table says now
+                w.expect_noop = True
+                if new:
+                    self._bad(w, 'repeated-ack-fired', f'{what}: id {id} '
+                              f'was acknowledged before by this connection, '
+                              f'yet fired {new!r}')
+                if id not in out and self.canon(w) != before:
+                    self._bad(w, 'ack-side-effect',
+                              f'{what}: repeated ACK changed the state')
+            elif id in out:
                 k = out.pop(id)
                 w.used.setdefault((s, ns), set()).add(id)
+                w.acked.setdefault((s, ns), set()).add(id)
                 if new != {k: [tuple(args)]}:
                     self._bad(w, 'callback', f'{what}: expected callback '
                               f'#{k}{tuple(args)!r} once, got {new!r}')
@@ -215,6 +253,7 @@ class Model:
                               f'{what}: nothing outstanding under that id '
                               f'for this client, yet fired {new!r}')
                 after = self.canon(w)
+                w.expect_noop = True
                 if after != before:
                     self._bad(w, 'ack-side-effect',
                               f'{what}: unknown id changed the state: '
